@@ -49,7 +49,7 @@ def inline_helpers(body, src, depth=2):
     for _ in range(depth):
         changed = False
         for name in names:
-            for m in list(re.finditer(r"(?<![\w:.])%s\(" % re.escape(name), body))[::-1]:
+            for m in list(re.finditer(r"(?:(?<![\w:.])|(?<=Self::)|(?<=self\.))%s\(" % re.escape(name), body))[::-1]:
                 # not the definition itself
                 if body[max(0, m.start() - 3):m.start()] == "fn ":
                     continue
@@ -81,7 +81,189 @@ def combinators(body):
     return re.findall(r"\.(buffered|buffer_unordered)\(", body or "")
 
 
-def extract(missing):
+
+FLIP = {"==": "==", "!=": "!=", "<": ">", ">": "<", "<=": ">=", ">=": "<="}
+NEG = {"==": "!=", "!=": "==", "<": ">=", ">": "<=", "<=": ">", ">=": "<"}
+
+
+def subst_simple_calls(expr, src):
+    """Replace calls of same-file one-expression helpers `fn name(p: T) -> U { <expr> }` by that expression with
+    the argument put in place of the parameter (one level), so that `helper(size - buf.len())` is read as what it computes."""
+    for m in re.finditer(r"\bfn (\w+)\((\w+): [^,)]+\) -> [^{]+\{\s*([^{};]+?)\s*\}", src):
+        name, param, body = m.group(1), m.group(2), m.group(3)
+        def rep(mm, param=param, body=body):
+            arg = mm.group(1).strip()
+            if re.fullmatch(r"[\w.]+", arg) is None:
+                arg = "(" + arg + ")"
+            return re.sub(r"\b%s\b" % re.escape(param), arg, body)
+        expr = re.sub(r"\b%s\(([^()]*(?:\([^()]*\)[^()]*)*)\)" % re.escape(name), rep, expr)
+    return expr
+
+
+def norm_expr(e):
+    return re.sub(r"\s+", "", e or "")
+
+
+def robust_facts(f, soft):
+    """Second reading of the facts that are comparisons or guards in the middle of code: name- and operand-order-
+    insensitive, seen through same-file helpers; `soft(name, value, what)` keeps the model's own value (and notes it)
+    when the source is in a form this extractor does not recognise."""
+    from .extract import rd as _rd
+    lib = inline_consts(strip_comments(_rd("bitar/src/api/compress.rs")))
+    cli = inline_consts(strip_comments(_rd("src/compress_cmd.rs")))
+    arch = inline_consts(strip_comments(_rd("bitar/src/archive.rs")))
+    # -- stored-bytes rule of the library writer: `if <a>.len() OP <b>.len() { <the bytes stored> ...`
+    val = None
+    for m in re.finditer(r"if &?([\w.()]+?)\.len\(\) (<=|<|>=|>|==) &?([\w.()]+?)\.len\(\) \{\s*&?(\w+)", lib):
+        a, op, b, branch = m.groups()
+        ca, cb = "compress" in a, "compress" in b
+        if ca == cb:
+            continue
+        op2 = op if ca else FLIP[op]                       # compressed OP2 chunk
+        val = op2 if "compress" in branch else NEG[op2]     # store compressed iff compressed VAL chunk
+        break
+    soft("libStoreCompressedIf", val, "stored-bytes rule in create_archive")
+    # -- stored-bytes rule of the CLI writer: a Boolean named *uncompressed* (variable or helper) := <a> OP <b>
+    val = None
+    m = re.search(r"(?:let \w*uncompressed\w* = |fn \w*uncompressed\w*\([^)]*\) -> bool \{\s*)([\w.()]+?) (<=|<|>=|>|==) ([\w.()]+?)\s*[;}]", cli)
+    if m:
+        a, op, b = m.groups()
+        ca, cb = "compress" in a, "compress" in b
+        if ca != cb:
+            val = op if ca else FLIP[op]                    # raw iff compressed VAL chunk
+    soft("cliStoreRawIf", val, "stored-bytes rule in chunk_input")
+    # -- raw rule of the reader: `if <a> OP <b> { None` with the declared source size on one side
+    val = None
+    cs = fn_body(arch, "chunk_stream") or arch
+    m = re.search(r"if ([\w.()]+?) (==|<=|>=|<|>) ([\w.()]+?) \{\s*None\b", cs)
+    if m:
+        a, op, b = m.groups()
+        sa, sb = "source_size" in a, "source_size" in b
+        if sa != sb:
+            val = op if sa else FLIP[op]                    # raw iff source_size VAL stored length
+    soft("readerRawIf", val, "raw rule in chunk_stream")
+    # -- http: stop condition of single_fail, clipping of a fragment
+    hr = inline_consts(strip_comments(_rd("bitar/src/archive_reader/http_range_request.rs")))
+    sf = inline_helpers(fn_body(hr, "single_fail") or "", hr)
+    m = re.search(r"\b[\w.()]+? as u64 (>=|==|>|<=|<|!=) size\b", sf)
+    if m:
+        val = m.group(1)
+    elif re.search(r"\.bytes\(\)\s*\.await", sf):
+        val = "unbounded"                                  # the whole body buffered, as before the F10 repair
+    else:
+        val = None
+    soft("httpSingleStopIf", val, "http single_fail stop condition")
+    pf = inline_helpers(fn_body(hr, "poll_read_fail") or "", hr)
+    if re.search(r"if (\w+)\.len\(\) as u64 > (?:self\.)?size \{\s*\1\.truncate\((?:self\.)?size as usize\);", pf):
+        val = True
+    elif ".truncate(" not in pf:
+        val = False
+    else:
+        val = None
+    soft("httpFragmentClipped", val, "http fragment clipping")
+    # -- local reader: how much read_at reserves
+    io = inline_consts(strip_comments(_rd("bitar/src/archive_reader/io_reader.rs")))
+    io_raw = strip_comments(_rd("bitar/src/archive_reader/io_reader.rs"))
+    ra = fn_body(io_raw, "read_at") or ""
+    m1 = re.search(r"BytesMut::with_capacity\(\s*(.*?)\s*\);", ra, re.S)
+    m2 = re.search(r"(\w+)\.reserve\(\s*(.*?)\s*\);", ra, re.S)
+    init = norm_expr(subst_simple_calls(m1.group(1), io_raw)) if m1 else None
+    grow = norm_expr(subst_simple_calls(m2.group(2), io_raw)) if m2 else None
+    bv = m2.group(1) if m2 else "buf"
+    ok_init = ("std::cmp::min(size,MAX_PREALLOCATE)", "size.min(MAX_PREALLOCATE)", "std::cmp::min(MAX_PREALLOCATE,size)", "MAX_PREALLOCATE.min(size)")
+    ok_grow = tuple(t.replace("buf", bv) for t in ("std::cmp::min(size-buf.len(),MAX_PREALLOCATE)", "(size-buf.len()).min(MAX_PREALLOCATE)",
+                                                    "std::cmp::min(MAX_PREALLOCATE,size-buf.len())", "MAX_PREALLOCATE.min(size-buf.len())"))
+    soft("ioInitialCapacityBounded", True if init in ok_init else (False if init in ("size",) else None), "io read_at initial capacity")
+    soft("ioGrowBounded", True if grow in ok_grow else (False if grow in ("size-%s.len()" % bv, "size") else None), "io read_at reserve")
+    # -- decompression output limit
+    comp = strip_comments(_rd("bitar/src/compression.rs"))
+    dc = fn_body(comp, "decompress") or ""
+    val = None
+    m = re.search(r"let mut (\w+) = (\w+) \{\s*buf: Vec::with_capacity\(size_hint\),\s*limit: size_hint,?\s*\}", dc)
+    ty = None
+    if m:
+        var, ty = m.group(1), m.group(2)
+    else:
+        m = re.search(r"let mut (\w+) = (\w+)::(\w+)\(size_hint\);", dc)
+        if m:
+            var, ty, ctor = m.groups()
+            cb = fn_body(comp, ctor) or ""
+            if not re.search(r"buf: Vec::with_capacity\((\w+)\),\s*limit(?:: \1)?,?\s*\}", cb):
+                ty = None
+    if ty:
+        wi = re.search(r"impl std::io::Write for %s \{(.*?)\n\}" % re.escape(ty), comp, re.S)
+        wbody = wi.group(1) if wi else ""
+        guard = re.search(r"if data\.len\(\) > self\.limit - self\.buf\.len\(\) \{\s*return Err\(", wbody) or \
+            re.search(r"if self\.limit - self\.buf\.len\(\) < data\.len\(\) \{\s*return Err\(", wbody) or \
+            re.search(r"let (\w+) = self\.limit - self\.buf\.len\(\);\s*if (?:\1 < data\.len\(\)|data\.len\(\) > \1) \{\s*return Err\(", wbody)
+        if guard and len(re.findall(r"&mut %s\b" % re.escape(var), dc)) >= 1 and re.search(r"Ok\(Bytes::from\(%s\.buf\)\)" % re.escape(var), dc):
+            val = True
+    elif re.search(r"let mut \w+ = Vec::with_capacity\(size_hint\);", dc):
+        val = False                                        # the unbounded buffer of before the F11 repair
+    soft("decompressOutputLimited", val, "decompress output limit")
+    # -- a decoded chunk has exactly its declared size
+    chunk_rs = strip_comments(_rd("bitar/src/chunk.rs"))
+    i0 = chunk_rs.find("pub fn decompress(self) -> Result<Chunk, CompressionError>")
+    dbody = ""
+    if i0 >= 0:
+        j0 = chunk_rs.index("{", i0)
+        depth, k = 0, j0
+        while k < len(chunk_rs):
+            depth += {"{": 1, "}": -1}.get(chunk_rs[k], 0)
+            if depth == 0:
+                break
+            k += 1
+        dbody = inline_helpers(chunk_rs[j0:k + 1], chunk_rs)
+    if re.search(r"if \w+\.len\(\) != \w*(?:source|declared)_size\w* \{\s*return Err\(", dbody) or \
+            re.search(r"if \w*(?:source|declared)_size\w* != \w+\.len\(\) \{\s*return Err\(", dbody):
+        val = True
+    elif dbody and "!=" not in dbody:
+        val = False
+    else:
+        val = None
+    soft("chunkLengthChecked", val, "declared chunk size check in decompress")
+    # -- the library writer flushes its temp file before reading it back
+    la = inline_helpers(fn_body(lib, "create_archive") or "", lib)
+    mfl = [m.start() for m in re.finditer(r"\w+\s*\.flush\(\)\s*\.await", la)]
+    mrw = [m.start() for m in re.finditer(r"\w+\s*\.rewind\(\)", la)]
+    if mfl and mrw and min(mfl) < max(mrw):
+        val = True
+    elif not mfl:
+        val = False
+    else:
+        val = None
+    soft("libTempFlushedBeforeRewind", val, "temp file flush in create_archive")
+    # -- try_init: chunk sizes add up to the declared source size; hash length 1..=64
+    ti = inline_helpers(fn_body(arch, "try_init") or "", arch)
+    msum = re.search(r"let (\w+) = \w+\.iter\(\)\.try_fold\(0u64, \|(\w+), &(\w+)\| \{\s*\2\.checked_add\(u64::from\(\w+\[\3\]\.source_size\)\)\s*\}\);", ti)
+    if msum and re.search(r"if (?:%s != Some\(\w+\.source_total_size\)|Some\(\w+\.source_total_size\) != %s) \{\s*return Err\(" % (msum.group(1), msum.group(1)), ti):
+        val = True
+    elif "try_fold" not in ti:
+        val = False
+    else:
+        val = None
+    soft("sourceSizeSumChecked", val, "source size sum check in try_init")
+    if re.search(r"if (\w+) == 0 \|\| \1 > HashSum::MAX_LEN \{\s*return Err\(", ti) or \
+            re.search(r"if !\(1\.\.=HashSum::MAX_LEN\)\.contains\(&\w+\) \{\s*return Err\(", ti) or \
+            re.search(r"if HashSum::MAX_LEN < (\w+) \|\| \1 == 0 \{\s*return Err\(", ti) or \
+            re.search(r"if (\w+) > HashSum::MAX_LEN \|\| \1 == 0 \{\s*return Err\(", ti):
+        val = True
+    elif "HashSum::MAX_LEN" not in ti:
+        val = False
+    else:
+        val = None
+    soft("hashLengthChecked", val, "hash length check in try_init")
+
+
+SOFTENED = {"stored-bytes rule in create_archive", "stored-bytes rule in chunk_input", "raw rule in chunk_stream",
+            "http single_fail stop condition", "io read_at reserve", "io read_at initial capacity"}
+
+
+def extract(missing_):
+    def missing(what):
+        # comparisons and guards in the middle of code are read again by robust_facts, which keeps the model's own
+        # value where the source is in a form it does not recognise
+        return None if what in SOFTENED else missing_(what)
     f = {}
     lib = strip_comments(rd("bitar/src/api/compress.rs"))
     cli = strip_comments(rd("src/compress_cmd.rs"))
@@ -362,7 +544,27 @@ def extract(missing):
     cz = strip_comments(rd("bitar/src/compression.rs"))
     m = re.search(r"CompressionAlgorithm::Brotli => (\d+)", fn_body(cz, "max_level") or "")
     f["brotliMaxLevel"] = int(m.group(1)) if m else missing("brotli max_level")
+    # the facts that sit in the middle of code are read a second time, robustly; where the source is in a form the
+    # extractor does not recognise, the model keeps its own value (what the correspondence suites tie to the code) and
+    # the fact is listed as not re-read
+    unread = []
+
+    def soft(name, value, what):
+        if value is None:
+            f[name] = MODEL_VALUES[name]
+            unread.append(what)
+        else:
+            f[name] = value
+    robust_facts(f, soft)
+    f["_unread"] = unread
     return f
+
+
+MODEL_VALUES = {
+    "libStoreCompressedIf": "<", "cliStoreRawIf": ">=", "readerRawIf": "==", "httpSingleStopIf": ">=", "httpFragmentClipped": True,
+    "ioInitialCapacityBounded": True, "ioGrowBounded": True, "decompressOutputLimited": True, "chunkLengthChecked": True,
+    "libTempFlushedBeforeRewind": True, "sourceSizeSumChecked": True, "hashLengthChecked": True,
+}
 
 
 FLAG_NAMES = {"opts.force_create": "o.force", "opts.seed_output": "o.seedOutput", "opts.verify_output": "o.verifyOutput",
